@@ -15,10 +15,11 @@ THEOREMS = [
     "C02_dependents_complete", "C02_notification_order_irrelevant", "C02_acyclicb_sound", "C02_acyclicb_complete", "C02_op_ok_complete",
     "C02_generated_subscribe_eq_model", "C02_generated_unsubscribe_eq_model", "C02_generated_calculate_sro_eq_model",
     "C02_generated_changed_step_eq_model", "C02_generated_changed_eq_model", "C02_generated_setBases_eq_model",
-    "C02_generated_queries_eq_model", "C02_state_equiv_same_answers",
+    "C02_generated_queries_eq_model", "C02_generated_c_isOrExtends_eq_model", "C02_state_equiv_same_answers",
     "C02_unique_keys_is_model", "C02_equal_keys_refuted",
 ]
 INTERFACE_PY = os.path.join(C.REPO, "src", "zope", "interface", "interface.py")
+COPT_C = os.path.join(C.REPO, "src", "zope", "interface", "_zope_interface_coptimizations.c")
 GEN = os.path.join(C.COQ, "Gen", "SpecGraphKernel.v")
 
 
@@ -26,17 +27,19 @@ def regenerate(run):
     """Re-translate class Specification (subscribe, unsubscribe, __setBases, _calculate_sro, changed,
     isOrExtends, extends) into coq/Gen/SpecGraphKernel.v (fail closed)."""
     try:
-        C.write_if_changed(GEN, TR.translate_file(INTERFACE_PY))
+        C.write_if_changed(GEN, TR.translate_file(INTERFACE_PY, COPT_C))
         return []
     except Exception as e:  # noqa: refuse, report, keep the pipeline alive on the pinned kernel
         C.write_if_changed(GEN, TR.pinned())
         return ["harness/translate/specgraph.py refused %s (%s: %s); coq/Gen/SpecGraphKernel.v holds the pinned "
                 "kernel, so the C02_generated_* theorems of Properties/C02.v are NOT about the current source"
-                % (INTERFACE_PY, type(e).__name__, e)]
+                % (INTERFACE_PY + " / " + COPT_C, type(e).__name__, e)]
 
 RULE = ("histories of 3-25 operations over real InterfaceClass / Declaration / implementedBy(cls) / "
         "providedBy(ob) / providedBy(cls) objects with __bases__ reassignments at every kind of node, "
-        "classImplements and garbage collection of leaves; after every operation all pairs are queried. "
+        "classImplements and garbage collection of leaves; after every operation all pairs are queried, each "
+        "specification first being re-asked the isOrExtends question it last answered yes to (before a __bases__ "
+        "assignment: one whose answer is about to turn to no). "
         "A history is non-trivial when some __bases__ reassignment hits a node that has at least two "
         "levels of dependents while the graph contains a diamond or a node with two dependents; distinct = "
         "distinct (kinds present, node-count bucket, #rebases bucket, deepest rebased dependents level, "
@@ -516,10 +519,13 @@ LEVEL_TEXT = ("Machine-checked theorems (Properties/C02.v, closed under the glob
               "of creations, __bases__ reassignments at any node and deaths of leaves that keeps the base graph "
               "acyclic, and for every order in which dependents are notified: isOrExtends/extends/__sro__ membership "
               "= reachability over the current bases (+ root), every cached __sro__ = the order of a freshly built "
-              "graph, dependents counts = multiplicity in __bases__. The model is compared with the C and Python "
+              "graph, dependents counts = multiplicity in __bases__. The step functions of the model are proved equal, "
+              "for all states, to the Gallina text regenerated on every run from class Specification and from the C "
+              "struct SB / SB_extends (C02_generated_*_eq_model). The model is compared with the C and Python "
               "implementations after every operation of generated histories over real interfaces, Declarations, "
               "class and instance declarations, and the raw answers are judged by a from-scratch reachability / "
               "fresh-graph oracle inside Coq.")
 LEVEL_NOTE = ("Trusted: Coq kernel/vm_compute; Model/Ro.v as transcription of ro.py (validated by the per-step __sro__ "
-              "comparison); interface identity = unique (name, module) key (F10 excluded); how declarations compute "
+              "comparison); interface identity = unique (name, module) key (F10 is recorded: shown by the twins corpus case and "
+              "refuted in Coq for the key-looked-up variant of the model); how declarations compute "
               "the __bases__ they assign is taken from observation (C01's subject), the direct assignments are checked.")
